@@ -49,6 +49,9 @@ SYNC_KERNELS = [
 
 
 def run(ctx: Context, col) -> None:
+    from .common import Parts
+
+    part = Parts()
     for cname, meth, args in SYNC_KERNELS:
         cls = ctx.ct.get(cname)
         extra = {}
@@ -74,9 +77,10 @@ def run(ctx: Context, col) -> None:
             f"a device/batch/slot index survives un-batching at line {interfering[0]['line']}" if interfering else
             f"pmapped attribute(s) {bad_spec} do not broadcast their carry operands" if bad_spec else "kernel has no scan / un-batching")
         col.add("R3.1", f"{cname}.{meth}", owner.module.relpath, fn.lineno, ok, why, text="slot-wise non-interference")
-    _taint(ctx, col)
-    _mask(ctx, col)
-    _pad_strip(ctx, col)
+    part(_taint, ctx, col)
+    part(_mask, ctx, col)
+    part(_pad_strip, ctx, col)
+    part.finish()
     col.floor("R3.3", 5)
     col.floor("R3.1", 8)
     col.floor("R3.2", 5)
